@@ -45,6 +45,14 @@ from ckl.errors import CklRuntimeError, CklSyntaxError  # noqa: E402
 from ckl import values as V  # noqa: E402
 
 NPROC = 16
+CALL_TIMEOUT = 300      # seconds for one interpret call (they take microseconds)
+
+
+def _alarm(signum, frame):
+    raise TimeoutError("interpret call did not return")
+
+
+signal.signal(signal.SIGALRM, _alarm)
 BUNDLED = None          # module ids preloaded in a fresh interpreter
 
 
@@ -166,7 +174,11 @@ class Sessions:
         """-> (abstract outcome tuple, raw identity of an error)"""
         it = self.it[i]
         try:
-            r = it.interpret(src, "cmd")
+            signal.alarm(CALL_TIMEOUT)          # a call that never returns is an outcome too
+            try:
+                r = it.interpret(src, "cmd")
+            finally:
+                signal.alarm(0)
         except CklRuntimeError as e:
             return classify_error(e), ("CklRuntimeError", repr(e.value), str(e.msg))
         except CklSyntaxError as e:
@@ -395,7 +407,6 @@ class Walker:
         plan below every root; returns when every process has ended."""
         self.fd = os.open(self.outpath, os.O_WRONLY | os.O_APPEND | os.O_CREAT)
         gc.disable()
-        signal.alarm(6000)
         pids = []
         for k, (root_sid, moddir, tag) in enumerate(roots):
             self.sem.acquire()
@@ -505,8 +516,8 @@ class Walker:
             n += 2 + len(obs[i])
             findings += diagnostics(sess, i, g.key[sid], self.loadcap)
         for cat, what in findings:
-            self.emit({"t": "f", "cat": cat, "what": what, "obs": obs,
-                       "path": [[p[0], p[1], p[3]] for p in path]})
+            self.emit({"t": "f", "cat": cat, "what": what, "obs": obs, "key": g.key[sid],
+                       "loadcap": self.loadcap, "path": [[p[0], p[1], p[3]] for p in path]})
         return n
 
 
@@ -664,7 +675,8 @@ def report(run, recs, verdict_cats, prefix, fsdefs, interps):
             key = f"{prefix}:{r['cat']}:{tail} :: {r['what']}{fsk}"
             run.violation(key, f"{r['cat']}: after [{' ; '.join(hist)}] {r['what']}{fsk}",
                           {"kind": "history", "fs": fsdef, "interps": interps,
-                           "path": r["path"], "obs": r["obs"], "cat": r["cat"], "what": r["what"]})
+                           "path": r["path"], "obs": r["obs"], "key": r["key"], "loadcap": r["loadcap"],
+                           "cat": r["cat"], "what": r["what"]})
         else:
             run.drift(r["cat"], {"history": hist[-6:], "what": r["what"]})
     return edges, evals
@@ -837,6 +849,8 @@ def replay_history(run, case, verdict_cats, prefix):
             if last and case.get("obs") is not None:
                 for i in interps:
                     finds += observe(sess, i, case["obs"][i])
+                    if case.get("key") is not None:
+                        finds += diagnostics(sess, i, case["key"], case.get("loadcap", 1))
             for cat, what in finds:
                 if cat in verdict_cats:
                     run.violation(f"{prefix}:replay:{cat}:{what}", f"{cat}: {what}", case)
